@@ -58,6 +58,39 @@ impl<K: Eq, V> HashMap<K, V> {
   pub fn is_empty(&self) -> bool {
     self.entries.is_empty()
   }
+  pub fn with_capacity(_n: usize) -> Self {
+    HashMap { entries: Vec::new() }
+  }
+  pub fn get_mut<Q: ?Sized + Eq>(&mut self, k: &Q) -> Option<&mut V>
+  where
+    K: Borrow<Q>,
+  {
+    for e in self.entries.iter_mut() {
+      if e.0.borrow() == k {
+        return Some(&mut e.1);
+      }
+    }
+    None
+  }
+  pub fn clear(&mut self) {
+    self.entries.clear()
+  }
+  pub fn keys(&self) -> impl Iterator<Item = &K> {
+    self.entries.iter().map(|e| &e.0)
+  }
+  pub fn values(&self) -> impl Iterator<Item = &V> {
+    self.entries.iter().map(|e| &e.1)
+  }
+  pub fn iter(&self) -> impl Iterator<Item = (&K, &V)> {
+    self.entries.iter().map(|e| (&e.0, &e.1))
+  }
+  /// like std: whatever the caller does with the iterator, the map is empty once it is dropped
+  pub fn drain(&mut self) -> std::vec::Drain<'_, (K, V)> {
+    self.entries.drain(..)
+  }
+  pub fn retain<F: FnMut(&K, &mut V) -> bool>(&mut self, mut f: F) {
+    self.entries.retain_mut(|e| f(&e.0, &mut e.1))
+  }
 }
 
 pub struct HashSet<K> {
@@ -99,5 +132,31 @@ impl<K: Eq> HashSet<K> {
   }
   pub fn iter(&self) -> std::slice::Iter<'_, K> {
     self.entries.iter()
+  }
+  pub fn with_capacity(_n: usize) -> Self {
+    HashSet { entries: Vec::new() }
+  }
+  pub fn len(&self) -> usize {
+    self.entries.len()
+  }
+  pub fn clear(&mut self) {
+    self.entries.clear()
+  }
+  /// like std: whatever the caller does with the iterator, the set is empty once it is dropped
+  pub fn drain(&mut self) -> std::vec::Drain<'_, K> {
+    self.entries.drain(..)
+  }
+  pub fn take(&mut self, k: &K) -> Option<K> {
+    let mut idx = None;
+    for (i, kk) in self.entries.iter().enumerate() {
+      if kk == k {
+        idx = Some(i);
+        break;
+      }
+    }
+    idx.map(|i| self.entries.swap_remove(i))
+  }
+  pub fn retain<F: FnMut(&K) -> bool>(&mut self, f: F) {
+    self.entries.retain(f)
   }
 }
